@@ -14,7 +14,7 @@ MENU = [({"name": "rr"}, 1), ({"name": "uniform"}, 3), ({"name": "pct", "d": 1},
 
 def make_plan(seed: int, tier: str, opts: dict) -> dict:
     r = random.Random(seed)
-    spec = common.gen_supported_spec(r, max_nodes=4 if tier == "quick" else 5)
+    spec = common.gen_supported_spec(r, max_nodes=4 if tier == "quick" else 6)
     wall = r.random() < opts.get("wall_p", 0.0)
     n_eps = r.choice([1, 2, 2, 3])
     eps = []
